@@ -3385,6 +3385,71 @@ def _local_records(trees):
     return n
 
 
+def _local_dict_fields(trees):
+    """q = {'key': key, 'revision': revision}     (bound once, never written)
+       ... q['key'] ...                     ->   ... key ...
+    for values that are plain access paths nothing re-binds."""
+    n = 0
+    for t in trees.values():
+        for fn in ast.walk(t):
+            if not isinstance(fn, (ast.FunctionDef, ast.AsyncFunctionDef)):
+                continue
+            stores = {}
+            for x in ast.walk(fn):
+                if isinstance(x, ast.Name) and isinstance(
+                        x.ctx, (ast.Store, ast.Del)):
+                    stores[x.id] = stores.get(x.id, 0) + 1
+            pm = None
+            for st in [x for x in ast.walk(fn) if isinstance(x, ast.Assign)]:
+                if not (len(st.targets) == 1 and
+                        isinstance(st.targets[0], ast.Name) and
+                        stores.get(st.targets[0].id) == 1 and
+                        isinstance(st.value, ast.Dict) and st.value.keys and
+                        all(isinstance(k, ast.Constant) and
+                            isinstance(k.value, str) for k in st.value.keys)
+                        and all(_stable_path(v) and all(
+                            stores.get(x.id, 0) <= 1 for x in ast.walk(v)
+                            if isinstance(x, ast.Name))
+                            for v in st.value.values)):
+                    continue
+                var = st.targets[0].id
+                if pm is None:
+                    pm = {}
+                    for x in ast.walk(fn):
+                        for ch in ast.iter_child_nodes(x):
+                            pm[ch] = x
+                row = {k.value: v for k, v in zip(st.value.keys,
+                                                  st.value.values)}
+                uses = [x for x in ast.walk(fn) if isinstance(x, ast.Name)
+                        and x.id == var and isinstance(x.ctx, ast.Load)]
+                subs, ok = [], True
+                for u in uses:
+                    par = pm.get(u)
+                    if isinstance(par, ast.Subscript) and par.value is u:
+                        if isinstance(par.ctx, ast.Load) and \
+                                isinstance(par.slice, ast.Constant) and \
+                                par.slice.value in row:
+                            subs.append(par)
+                        else:
+                            ok = False
+                    elif isinstance(par, ast.keyword) and par.arg is None:
+                        pass            # **q: reads the dict
+                    elif isinstance(par, ast.Attribute) and \
+                            par.attr in ('get', 'items', 'keys', 'values',
+                                         'copy'):
+                        pass
+                    else:
+                        ok = False      # handed out or written: not ours
+                if not ok or not subs:
+                    continue
+                for sb in subs:
+                    _Replace(sb, copy.deepcopy(row[sb.slice.value])).visit(fn)
+                ast.fix_missing_locations(fn)
+                pm = None
+                n += 1
+    return n
+
+
 def _memo_own_attribute(trees):
     """@classmethod
        def m(cls):
@@ -3596,9 +3661,42 @@ class _DictFlows(ast.NodeTransformer):
         return node
 
 
+class _BoolInTests(ast.NodeTransformer):
+    """`if bool(x) and y:` is `if x and y:` -- bool() says nothing where
+    only the truth of the value is looked at."""
+    def __init__(self):
+        self.count = 0
+
+    def _strip(self, e):
+        if isinstance(e, ast.Call) and isinstance(e.func, ast.Name) and \
+                e.func.id == 'bool' and len(e.args) == 1 and \
+                not e.keywords and not isinstance(e.args[0], ast.Starred):
+            self.count += 1
+            return self._strip(e.args[0])
+        if isinstance(e, ast.BoolOp):
+            e.values = [self._strip(v) for v in e.values]
+        elif isinstance(e, ast.UnaryOp) and isinstance(e.op, ast.Not):
+            e.operand = self._strip(e.operand)
+        return e
+
+    def _test(self, node):
+        self.generic_visit(node)
+        node.test = self._strip(node.test)
+        return node
+    visit_If = _test
+    visit_While = _test
+    visit_IfExp = _test
+    visit_Assert = _test
+
+
 def desugar(trees):
     n = _memo_own_attribute(trees)
     n += _local_records(trees)
+    n += _local_dict_fields(trees)
+    for t in trees.values():
+        b = _BoolInTests()
+        b.visit(t)
+        n += b.count
     for t in trees.values():
         df = _DictFlows()
         df.visit(t)
@@ -4506,8 +4604,12 @@ class _Thread(ast.NodeTransformer):
         r = t.left.id
         loads, stores = self.uses[-1]
         leaves = self._leaves(first, r)
+        plain = leaves is not None and all(
+            isinstance(lf.value, ast.Name) or (
+                isinstance(lf.value, ast.Constant) and
+                lf.value.value is None) for lf in leaves)
         if leaves is None or stores.get(r) != len(leaves) or \
-                len(leaves) > 4 or loads.get(r, 0) > 2:
+                len(leaves) > 4 or (loads.get(r, 0) > 2 and not plain):
             return False
         some = isinstance(t.ops[0], ast.IsNot) != neg
         yes, no = (second.body, second.orelse) if some else \
@@ -4519,7 +4621,37 @@ class _Thread(ast.NodeTransformer):
                 for b in no for n in ast.walk(b)):
             return False
 
+        def asserted(v):
+            """v is a name the arm it stands in has just tested truthy:
+            `if v and ...: r = v`."""
+            if not (isinstance(v, ast.Name) and isinstance(first, ast.If)):
+                return False
+            conj = first.test.values if isinstance(
+                first.test, ast.BoolOp) and isinstance(
+                first.test.op, ast.And) else [first.test]
+            for c_ in conj:
+                if isinstance(c_, ast.Call) and \
+                        isinstance(c_.func, ast.Name) and \
+                        c_.func.id == 'bool' and len(c_.args) == 1:
+                    c_ = c_.args[0]
+                if isinstance(c_, ast.Name) and c_.id == v.id:
+                    return any(lf.value is v for lf in leaves
+                               if any(lf is x for b in first.body
+                                      for x in ast.walk(b)))
+                if isinstance(c_, ast.Compare) and len(c_.ops) == 1 and \
+                        isinstance(c_.ops[0], ast.IsNot) and \
+                        isinstance(c_.left, ast.Name) and \
+                        c_.left.id == v.id and \
+                        isinstance(c_.comparators[0], ast.Constant) and \
+                        c_.comparators[0].value is None:
+                    return any(lf.value is v for lf in leaves
+                               if any(lf is x for b in first.body
+                                      for x in ast.walk(b)))
+            return False
+
         def built(v):
+            if asserted(v):
+                return True
             if not isinstance(v, ast.Call):
                 return False
             fn = v.func
